@@ -203,17 +203,26 @@ impl OutputFormat for XBin {
         result.ice_mode = if use_ice { IceMode::Ice } else { IceMode::Blink };
 
         if has_custom_palette {
+            if data.len() < o + XBIN_PALETTE_LENGTH {
+                return Err(LoadingError::FileTooShort.into());
+            }
             result.palette = Palette::from_63(&data[o..(o + XBIN_PALETTE_LENGTH)]);
             o += XBIN_PALETTE_LENGTH;
         }
         if has_custom_font {
             let font_length = font_size as usize * 256;
+            if data.len() < o + font_length {
+                return Err(LoadingError::FileTooShort.into());
+            }
             result.clear_font_table();
             let mut font = BitFont::create_8("", 8, font_size, &data[o..(o + font_length)]);
             font.name = guess_font_name(&font);
             result.set_font(0, font);
             o += font_length;
             if extended_char_mode {
+                if data.len() < o + font_length {
+                    return Err(LoadingError::FileTooShort.into());
+                }
                 let mut font = BitFont::create_8("", 8, font_size, &data[o..(o + font_length)]);
                 font.name = guess_font_name(&font);
                 result.set_font(1, font);
